@@ -31,12 +31,15 @@ rm -f "$dir/zz_mut_demo_test.go"
 go test -vet=off -count=1 ./... >>/tmp/mutv-$$.log 2>&1 && mut_suite=PASS
 echo "CONFIRM $(basename $(dirname $D))/$(basename $D): demo_on_clean=$clean_demo demo_with_change=$mut_demo suite_with_change=$mut_suite"
 rm -f /tmp/mutv-$$.log
-# Now the checks against /repo.
+# Now the checks against /repo. Evidence written by runs against a changed
+# tree is put back afterwards: committed evidence comes from the clean tree.
 cd /verif
+for c in $CHECKS; do cp evidence/$c.json /tmp/mutv-$$-$c.json 2>/dev/null; done
 git -C /repo apply "$D/patch.diff" || { echo "apply to /repo failed"; exit 1; }
 for c in $CHECKS; do
   out=$(./check $c quick 2>&1); rc=$?
   echo "CHECK $c exit=$rc $(echo "$out" | grep -c '^VIOLATION') violation line(s)"
   echo "$out" | grep -E '^(violation:|VIOLATION|KNOWN|verif: harness)' | cut -c1-300 | head -6
 done
+for c in $CHECKS; do [ -f /tmp/mutv-$$-$c.json ] && mv /tmp/mutv-$$-$c.json evidence/$c.json; done
 git -C /repo checkout -- .
